@@ -51,6 +51,10 @@ pub struct Qcow2Dev<T> {
 
     // set in case that any dirty meta is made
     need_flush: AtomicBool,
+    // set by every modifying request, cleared by fsync: tells the ordered
+    // metadata flush whether something written earlier (e.g. slices written
+    // back by a cache eviction) still has to be synced
+    unsynced: AtomicBool,
     flush_lock: AsyncMutex<()>,
 
     file: T,
@@ -112,6 +116,7 @@ impl<T: Qcow2IoOps> Qcow2Dev<T> {
             refblock_cache: AsyncLruCache::new(rb_cache_cnt),
             new_cluster: AsyncRwLock::new(Default::default()),
             need_flush: AtomicBool::new(false),
+            unsynced: AtomicBool::new(false),
             flush_lock: AsyncMutex::new(()),
         };
 
